@@ -5,6 +5,7 @@ import (
 	"go/token"
 	"go/types"
 	"strings"
+	"sync"
 
 	"golang.org/x/tools/go/ssa"
 
@@ -15,12 +16,13 @@ import (
 func init() {
 	Register(&Prop{
 		ID: "C11",
-		Decides: "package dkg: (K1) makeShares builds every share.Share from one FROST participant (PubKey from VerificationKey, SecretShare from SkShare) and the " +
+		Decides: "package dkg, decided on the explored paths of each anchor function with in-package helpers, function literals and deferred calls stepped into: " +
+			"(K1) makeShares builds every share.Share from one FROST participant (PubKey from VerificationKey, SecretShare from SkShare) and the " +
 			"public-share map grouped by msgKey.ValIdx and keyed by msgKey.SourceID with the sender's VkShare; (K2) every partial signature put into an " +
-			"aggregate (lock hash, deposit data, validator registration) is first verified with tbls.Verify under PublicShares[s.ShareIdx] of the same validator, " +
-			"threshold aggregates are verified under the group key before they are used, and the lock-hash aggregate is checked with tbls.VerifyAggregate before it is set; " +
-			"(K3) the four peer-index/share-index conversion sites use offset exactly 1; (K4) FROST cast/share messages are forwarded to the protocol only after the " +
-			"source-id, target-id, validator-index checks on every element and the per-peer dedup.",
+			"aggregate (lock hash, deposit data, validator registration) was verified before with tbls.Verify under PublicShares[s.ShareIdx] of the same validator, " +
+			"threshold aggregates are verified under the group key over the partials' root before they are used, and the lock-hash aggregate is checked with tbls.VerifyAggregate before it is set; " +
+			"(K3) the four peer-index/share-index conversion sites (and the helpers they call) use offset exactly 1; (K4) FROST cast/share messages are forwarded to the protocol only on paths " +
+			"that found, for every element, source id = sender's share index, the right target id and a validator index below the validator count, and that consulted and marked the per-peer dedup set.",
 		NotDecided: "the algebraic relations of the statement (kryptology FROST: shares reconstruct the group key, partial signatures combine); what tbls.Verify means cryptographically.",
 		Run:        c11,
 		Mutants: []Mutant{
@@ -93,6 +95,56 @@ func init() {
 				New: "\t\t\tround1CastsRecv <- msg\n\n\t\t\tfor _, cast := range msg.GetCasts() {\n\t\t\t\tif int(cast.GetKey().GetSourceId()) != peerNode.ShareIdx {\n\t\t\t\t\treturn errors.New(\"invalid round 1 cast source ID\")"},
 			{ID: "C11-K4-r1-dedup-never-marked", File: "dkg/frostp2p.go", Expect: "K4",
 				Old: "dedupRound1Casts[pID] = true", New: "dedupRound2Casts[pID] = true"},
+			// --- added with the path-based (refactor-robust) formulation
+			// K1
+			{ID: "C11-K1-store-inner-map-under-source", File: "dkg/frost.go", Expect: "K1|new map",
+				Old: "\t\t\tpubShares[key.ValIdx] = m", New: "\t\t\tpubShares[key.SourceID] = m"},
+			{ID: "C11-K1-pubshares-of-first-sorted-validator", File: "dkg/frost.go", Expect: "K1|PublicShares",
+				Old: "PublicShares: pubShares[uint32(vIdx)],", New: "PublicShares: pubShares[uint32(vIdxs[0])],"},
+			{ID: "C11-K1-inner-key-is-validx", File: "dkg/frost.go", Expect: "K1|SourceID",
+				Old: "m[int(key.SourceID)] = pubShare", New: "m[int(key.ValIdx)] = pubShare"},
+			// K2
+			{ID: "C11-K2-deposit-insert-before-verify", File: "dkg/dkg.go", Expect: "K2|aggDepositData partial",
+				Old: "\t\t\terr = tbls.Verify(pubshare, sigRoot[:], sig)\n\t\t\tif err != nil {\n\t\t\t\treturn nil, errors.New(\"invalid deposit data partial",
+				New: "\t\t\tpsigs[s.ShareIdx] = sig\n\t\t\terr = tbls.Verify(pubshare, sigRoot[:], sig)\n\t\t\tif err != nil {\n\t\t\t\treturn nil, errors.New(\"invalid deposit data partial"},
+			{ID: "C11-K2-deposit-only-first-partial-verified", File: "dkg/dkg.go", Expect: "K2|aggDepositData partial",
+				Old: "\t\t\terr = tbls.Verify(pubshare, sigRoot[:], sig)\n\t\t\tif err != nil {\n\t\t\t\treturn nil, errors.New(\"invalid deposit data partial",
+				New: "\t\t\tif len(psigs) == 0 {\n\t\t\t\terr = tbls.Verify(pubshare, sigRoot[:], sig)\n\t\t\t}\n\t\t\tif err != nil {\n\t\t\t\treturn nil, errors.New(\"invalid deposit data partial"},
+			{ID: "C11-K2-valreg-group-verify-other-root", File: "dkg/dkg.go", Expect: "K2|aggValidatorRegistrations aggregate",
+				Old: "err = tbls.Verify(pubkey, sigRoot[:], asig)\n\t\tif err != nil {\n\t\t\treturn nil, errors.Wrap(err, \"invalid validator registration aggregated",
+				New: "err = tbls.Verify(pubkey, forkVersion, asig)\n\t\tif err != nil {\n\t\t\treturn nil, errors.Wrap(err, \"invalid validator registration aggregated"},
+			{ID: "C11-K2-valreg-group-verdict-discarded", File: "dkg/dkg.go", Expect: "K2|aggValidatorRegistrations aggregate",
+				Old: "err = tbls.Verify(pubkey, sigRoot[:], asig)\n\t\tif err != nil {\n\t\t\treturn nil, errors.Wrap(err, \"invalid validator registration aggregated",
+				New: "_ = tbls.Verify(pubkey, sigRoot[:], asig)\n\t\tif err != nil {\n\t\t\treturn nil, errors.Wrap(err, \"invalid validator registration aggregated"},
+			{ID: "C11-K2-lockhash-returns-group-keys", File: "dkg/dkg.go", Expect: "K2|returned public key",
+				Old: "pubkeys = append(pubkeys, pubshare)", New: "pubkeys = append(pubkeys, sh.PubKey)"},
+			{ID: "C11-K2-lock-verifyaggregate-other-hash", File: "dkg/dkg.go", Expect: "K2|signAndAggLockHash",
+				Old: "err = tbls.VerifyAggregate(aggPkLockHash, aggSigLockHash, lock.LockHash)", New: "err = tbls.VerifyAggregate(aggPkLockHash, aggSigLockHash, def.DefinitionHash)"},
+			// K3
+			{ID: "C11-K3-tss-offset-two", File: "cmd/createcluster.go", Expect: "K3",
+				Old: "secretSet[i-1] = shares[i]", New: "secretSet[i-1] = shares[i+1]"},
+			{ID: "C11-K3-nodeidx-peeridx-one-based", File: "cluster/definition.go", Expect: "K3",
+				Old: "PeerIdx:  i,     // 0-indexed", New: "PeerIdx:  i + 1, // 0-indexed"},
+			{ID: "C11-K3-combine-zero-based", File: "cmd/combine/combine.go", Expect: "K3",
+				Old: "pubkMap[pubShare] = peerIdx + 1", New: "pubkMap[pubShare] = peerIdx"},
+			// K4
+			{ID: "C11-K4-r2-validates-first-cast-only", File: "dkg/frostp2p.go", Expect: "K4|FrostRound2Casts",
+				Old: "\t\t\t\t\treturn errors.New(\"invalid round 2 cast validator index\")\n\t\t\t\t}\n\t\t\t}",
+				New: "\t\t\t\t\treturn errors.New(\"invalid round 2 cast validator index\")\n\t\t\t\t}\n\n\t\t\t\tbreak\n\t\t\t}"},
+			{ID: "C11-K4-p2p-skips-first-share", File: "dkg/frostp2p.go", Expect: "K4|FrostRound1P2P",
+				Old: "for _, share := range msg.GetShares() {", New: "for _, share := range msg.GetShares()[1:] {"},
+			{ID: "C11-K4-p2p-send-before-dedup", File: "dkg/frostp2p.go", Expect: "K4|per-peer dedup",
+				Old: "\t\tif dedupRound1P2P[pID] {", New: "\t\tround1P2PRecv <- msg\n\n\t\tif dedupRound1P2P[pID] {"},
+			{ID: "C11-K4-r1-continue-around-key-checks", File: "dkg/frostp2p.go", Expect: "K4|FrostRound1Casts",
+				Old: "\t\t\tfor _, cast := range msg.GetCasts() {\n\t\t\t\tif int(cast.GetKey().GetSourceId()) != peerNode.ShareIdx {\n\t\t\t\t\treturn errors.New(\"invalid round 1 cast source ID\")",
+				New: "\t\t\tfor _, cast := range msg.GetCasts() {\n\t\t\t\tif len(cast.GetCommitments()) == threshold {\n\t\t\t\t\tcontinue\n\t\t\t\t}\n\n\t\t\t\tif int(cast.GetKey().GetSourceId()) != peerNode.ShareIdx {\n\t\t\t\t\treturn errors.New(\"invalid round 1 cast source ID\")"},
+			{ID: "C11-K4-r2-validx-bounded-by-threshold", File: "dkg/frostp2p.go", Expect: "K4",
+				Old: "int(cast.GetKey().GetValIdx()) >= numVals {\n\t\t\t\t\treturn errors.New(\"invalid round 2 cast validator index\")",
+				New: "int(cast.GetKey().GetValIdx()) >= threshold {\n\t\t\t\t\treturn errors.New(\"invalid round 2 cast validator index\")"},
+			{ID: "C11-K4-p2p-ctor-gets-threshold-as-validator-count", File: "dkg/frostp2p.go", Expect: "K4|validator-index bound",
+				Old: "newP2PCallback(p2pNode, peers, round1P2PRecv, numVals),", New: "newP2PCallback(p2pNode, peers, round1P2PRecv, threshold),"},
+			{ID: "C11-K4-p2p-validx-bounded-by-share-count", File: "dkg/frostp2p.go", Expect: "K4",
+				Old: "int(share.GetKey().GetValIdx()) >= numVals", New: "int(share.GetKey().GetValIdx()) >= len(msg.GetShares())"},
 		},
 	})
 }
@@ -106,7 +158,8 @@ type c11X struct {
 	Op   string // param const field lookup lookupok elem rkey rval call extract assert slice binop unop make var global opaque
 	Name string
 	Args []*c11X
-	V    ssa.Value // the SSA value this node was built from (rkey/rval: the *ssa.Next)
+	V    ssa.Value  // the SSA value this node was built from (rkey/rval: the *ssa.Next)
+	T    types.Type // static type of the value, where known (path terms only)
 	s    string
 }
 
@@ -347,6 +400,10 @@ func (b *c11B) val0(v0 ssa.Value, d int) *c11X {
 	}
 	switch x := v.(type) {
 	case *ssa.Parameter:
+		// a parameter of an unexported helper with a single static call site is the argument passed there
+		if arg := c11UniqueArg(x); arg != nil {
+			return b.val(arg, d+1)
+		}
 		return b.mk(x, "param", x.Name())
 	case *ssa.Const:
 		if x.Value == nil {
@@ -452,11 +509,204 @@ func c11FieldOf(x *c11X, key string) *c11X {
 	return nil
 }
 
-// c11Affine decomposes v into base + off over integer +/- constants (conversions transparent).
+// c11CallSites lists the static call sites of the top-level function fn inside its package; closed reports that fn
+// is unexported and every mention of it in the package is such a call (its address is never taken).
+var c11SitesMemo = map[*ssa.Function]struct {
+	sites  []ssa.CallInstruction
+	closed bool
+}{}
+
+var c11SitesMu sync.Mutex
+
+func c11CallSites(fn *ssa.Function) ([]ssa.CallInstruction, bool) {
+	c11SitesMu.Lock()
+	defer c11SitesMu.Unlock()
+	if m, ok := c11SitesMemo[fn]; ok {
+		return m.sites, m.closed
+	}
+	var sites []ssa.CallInstruction
+	closed := fn != nil && fn.Parent() == nil && fn.Pkg != nil && fn.Object() != nil && !fn.Object().Exported()
+	if fn != nil && fn.Pkg != nil {
+		for _, g := range an.PkgFuncs(fn.Pkg) {
+			for _, in := range an.Instrs(g, false) {
+				for _, op := range an.Operands(in) {
+					if f, ok := op.(*ssa.Function); !ok || f != fn {
+						continue
+					}
+					if ci, ok := in.(ssa.CallInstruction); ok && ci.Common().Value == op && !ci.Common().IsInvoke() {
+						if _, isGo := in.(*ssa.Go); !isGo {
+							sites = append(sites, ci)
+							continue
+						}
+					}
+					closed = false
+				}
+			}
+		}
+	}
+	c11SitesMemo[fn] = struct {
+		sites  []ssa.CallInstruction
+		closed bool
+	}{sites, closed}
+	return sites, closed
+}
+
+// c11UniqueArg returns the argument bound to parameter p when p's function is an unexported helper with exactly
+// one static call site (and is used in no other way); nil otherwise.
+func c11UniqueArg(p *ssa.Parameter) ssa.Value {
+	fn := p.Parent()
+	sites, closed := c11CallSites(fn)
+	if !closed || len(sites) != 1 {
+		return nil
+	}
+	for i, q := range fn.Params {
+		if q == p && i < len(sites[0].Common().Args) {
+			return sites[0].Common().Args[i]
+		}
+	}
+	return nil
+}
+
+// c11Affine decomposes v into base + off over integer +/- constants. Conversions and single-assignment locals are
+// transparent; a call of an in-package function whose only return is affine in one of its parameters
+// (`func shareIdx(peerIdx int) int { return peerIdx + 1 }`) is looked through; a parameter of a helper with a single
+// call site is replaced by the argument.
 func c11Affine(v ssa.Value) (ssa.Value, int64) {
 	var off int64
+	for i := 0; i < 24; i++ {
+		v = an.Resolve(v)
+		switch x := v.(type) {
+		case *ssa.UnOp:
+			// a field of a local struct value that is assigned exactly once: `idx.ShareIdx = idx.PeerIdx + 1`
+			if src := c11FieldLoadSource(x); src != nil {
+				v = src
+				continue
+			}
+		case *ssa.BinOp:
+			if n, isC := an.ConstInt(x.Y); isC && (x.Op == token.ADD || x.Op == token.SUB) {
+				if x.Op == token.ADD {
+					off += n
+				} else {
+					off -= n
+				}
+				v = x.X
+				continue
+			}
+			if n, isC := an.ConstInt(x.X); isC && x.Op == token.ADD {
+				off += n
+				v = x.Y
+				continue
+			}
+		case *ssa.Call:
+			callee := x.Call.StaticCallee()
+			if x.Call.IsInvoke() || callee == nil || len(callee.Blocks) == 0 || callee.Signature.Results().Len() != 1 {
+				return v, off
+			}
+			rets := an.Returns(callee)
+			if len(rets) != 1 {
+				return v, off
+			}
+			rb, ro := c11AffineLocal(returnValues(rets[0])[0])
+			p, isP := rb.(*ssa.Parameter)
+			if !isP || p.Parent() != callee {
+				return v, off
+			}
+			found := false
+			for k, q := range callee.Params {
+				if q == p && k < len(x.Call.Args) {
+					v, found = x.Call.Args[k], true
+				}
+			}
+			if !found {
+				return v, off
+			}
+			off += ro
+			continue
+		case *ssa.Parameter:
+			if arg := c11UniqueArg(x); arg != nil {
+				v = arg
+				continue
+			}
+		}
+		return v, off
+	}
+	return v, off
+}
+
+// c11FieldLoadSource: ld loads field f of a local struct variable whose field f is stored exactly once in the
+// function (directly, or in the single composite literal the variable was initialised from): the stored value.
+func c11FieldLoadSource(ld *ssa.UnOp) ssa.Value {
+	if ld.Op != token.MUL {
+		return nil
+	}
+	fa, ok := ld.X.(*ssa.FieldAddr)
+	if !ok {
+		return nil
+	}
+	al, ok := fa.X.(*ssa.Alloc)
+	if !ok {
+		return nil
+	}
+	return c11FieldSource(al, fa.Field, 0)
+}
+
+// c11WholeSource: the local struct variable al is initialised by exactly one whole-value store of the content of
+// another local variable (a composite literal): that variable; nil if al is never or differently stored as a whole.
+func c11WholeSource(al *ssa.Alloc) (src *ssa.Alloc, stores int) {
+	if al.Referrers() == nil {
+		return nil, 0
+	}
+	for _, ref := range *al.Referrers() {
+		st, ok := ref.(*ssa.Store)
+		if !ok || st.Addr != ssa.Value(al) {
+			continue
+		}
+		stores++
+		if ld, isLd := st.Val.(*ssa.UnOp); isLd && ld.Op == token.MUL {
+			if o, isAl := ld.X.(*ssa.Alloc); isAl {
+				src = o
+				continue
+			}
+		}
+		src = nil
+	}
+	if stores != 1 {
+		return nil, stores
+	}
+	return src, stores
+}
+
+func c11FieldSource(al *ssa.Alloc, field int, d int) ssa.Value {
+	if al.Referrers() == nil || d > 3 {
+		return nil
+	}
+	var src ssa.Value
+	n := 0
+	for _, ref := range *al.Referrers() {
+		if r, ok := ref.(*ssa.FieldAddr); ok && r.Field == field && r.Referrers() != nil {
+			for _, rr := range *r.Referrers() {
+				if st, isSt := rr.(*ssa.Store); isSt && st.Addr == ssa.Value(r) {
+					n++
+					src = st.Val
+				}
+			}
+		}
+	}
+	whole, stores := c11WholeSource(al)
+	switch {
+	case n == 1 && stores == 0:
+		return src
+	case n == 0 && stores == 1 && whole != nil:
+		return c11FieldSource(whole, field, d+1)
+	}
+	return nil
+}
+
+// c11AffineLocal is c11Affine without leaving the function (no parameter substitution).
+func c11AffineLocal(v ssa.Value) (ssa.Value, int64) {
+	var off int64
 	for i := 0; i < 16; i++ {
-		v = an.Unwrap(v)
+		v = an.Resolve(v)
 		bin, ok := v.(*ssa.BinOp)
 		if !ok {
 			break
@@ -480,112 +730,6 @@ func c11Affine(v ssa.Value) (ssa.Value, int64) {
 	return v, off
 }
 
-// c11Inserts lists the instructions that put an element into the local aggregate input a (a map made
-// in fn, or a slice grown by append from nil); ok=false if a has another origin.
-type c11Insert struct {
-	In   ssa.Instruction
-	Elem ssa.Value
-	Key  ssa.Value // maps only
-}
-
-func c11Inserts(fn *ssa.Function, a ssa.Value) ([]c11Insert, bool) {
-	a = an.Unwrap(a)
-	if mm, ok := a.(*ssa.MakeMap); ok {
-		var out []c11Insert
-		for _, up := range mapUpdates(fn, func(m ssa.Value) bool { return m == ssa.Value(mm) }) {
-			out = append(out, c11Insert{In: up, Elem: up.Value, Key: up.Key})
-		}
-		return out, true
-	}
-	if _, ok := a.Type().Underlying().(*types.Slice); !ok {
-		return nil, false
-	}
-	var out []c11Insert
-	seen := map[ssa.Value]bool{}
-	var walk func(v ssa.Value) bool
-	walk = func(v ssa.Value) bool {
-		if seen[v] {
-			return true
-		}
-		seen[v] = true
-		switch x := v.(type) {
-		case *ssa.Const:
-			return x.Value == nil
-		case *ssa.MakeSlice:
-			n, isC := an.ConstInt(x.Len)
-			return isC && n == 0
-		case *ssa.Phi:
-			for _, e := range x.Edges {
-				if !walk(e) {
-					return false
-				}
-			}
-			return true
-		case *ssa.Call:
-			bi, ok := x.Call.Value.(*ssa.Builtin)
-			if !ok || bi.Name() != "append" {
-				return false
-			}
-			elems := appendedElems(x)
-			if len(elems) == 0 {
-				return false
-			}
-			for _, e := range elems {
-				out = append(out, c11Insert{In: x, Elem: e})
-			}
-			return walk(x.Call.Args[0])
-		}
-		return false
-	}
-	if !walk(a) {
-		return nil, false
-	}
-	return out, true
-}
-
-// c11ValueUses returns the instructions consuming value v, looking through a spill of v into a local
-// (loads and slices of that local) and type changes.
-func c11ValueUses(v ssa.Value) []ssa.Instruction {
-	var out []ssa.Instruction
-	seen := map[ssa.Value]bool{}
-	var walk func(x ssa.Value)
-	walk = func(x ssa.Value) {
-		if seen[x] || x.Referrers() == nil {
-			return
-		}
-		seen[x] = true
-		for _, ref := range *x.Referrers() {
-			switch r := ref.(type) {
-			case *ssa.DebugRef:
-			case *ssa.Store:
-				if al, ok := r.Addr.(*ssa.Alloc); ok && r.Val == x {
-					walk(al)
-				} else if r.Addr != x {
-					out = append(out, r)
-				}
-			case *ssa.UnOp:
-				if r.Op == token.MUL {
-					walk(r)
-				} else {
-					out = append(out, r)
-				}
-			case *ssa.Slice:
-				walk(r)
-			case *ssa.ChangeType:
-				walk(r)
-			case *ssa.Convert:
-				walk(r)
-			case *ssa.MakeInterface:
-				walk(r)
-			default:
-				out = append(out, ref)
-			}
-		}
-	}
-	walk(v)
-	return out
-}
-
 const (
 	c11ShareT    = "dkg/share.Share"
 	c11ParSigIdx = "core.ParSignedData.ShareIdx"
@@ -597,798 +741,5 @@ func c11(c *rt.Ctx) {
 	c.Rule("K1", 5, func() { c11K1(c) })
 	c.Rule("K2", 18, func() { c11K2(c) })
 	c.Rule("K3", 4, func() { c11K3(c) })
-	c.Rule("K4", 12, func() { c11K4(c) })
-}
-
-// ---------------------------------------------------------------------------------------------
-// K1
-
-func c11K1(c *rt.Ctx) {
-	fn := c.Fn("dkg.makeShares")
-	if len(fn.Params) != 2 {
-		c.Bail("makeShares: unexpected signature")
-	}
-	b := c11NewB()
-	validatorsP, r2P := b.val(fn.Params[0], 0), b.val(fn.Params[1], 0)
-
-	// field stores of share.Share values built here, grouped by the struct being filled
-	type shareLit struct {
-		base   ssa.Value
-		stores map[string]*ssa.Store
-	}
-	var lits []*shareLit
-	for _, in := range an.Instrs(fn, false) {
-		st, ok := in.(*ssa.Store)
-		if !ok {
-			continue
-		}
-		fa, ok := st.Addr.(*ssa.FieldAddr)
-		if !ok || an.TypeName(fa.X.Type()) != c11ShareT {
-			continue
-		}
-		var l *shareLit
-		for _, x := range lits {
-			if x.base == fa.X {
-				l = x
-			}
-		}
-		if l == nil {
-			l = &shareLit{base: fa.X, stores: map[string]*ssa.Store{}}
-			lits = append(lits, l)
-		}
-		key := an.FieldKey(fa.X.Type(), fa.Field)
-		if l.stores[key] != nil {
-			c.Unsure("makeShares "+key, posOf(st), "field of one share.Share value is assigned twice")
-			return
-		}
-		l.stores[key] = st
-	}
-	if len(lits) == 0 {
-		c.Bail("makeShares builds no share.Share value field by field")
-	}
-	var outer ssa.Value // the map[ValIdx]map[SourceID]pubshare
-	for _, l := range lits {
-		pk, sk, ps := l.stores[c11ShareT+".PubKey"], l.stores[c11ShareT+".SecretShare"], l.stores[c11ShareT+".PublicShares"]
-		if pk == nil || sk == nil || ps == nil {
-			c.Unsure("makeShares share.Share literal", l.base.Pos(), "not all of PubKey, SecretShare, PublicShares are set on this value")
-			continue
-		}
-		// PubKey <- pointToPubKey(v.VerificationKey)
-		var part *c11X
-		if call := c11Res0(b.val(pk.Val, 0), "dkg.pointToPubKey"); call != nil && len(call.Args) == 1 {
-			part = c11FieldOf(call.Args[0], c11FrostPart+".VerificationKey")
-		}
-		c.Check("makeShares Share.PubKey←participant.VerificationKey", posOf(pk), part != nil,
-			"the group public key of a share is not pointToPubKey(v.VerificationKey) of a DKG participant")
-		// SecretShare <- scalarToSecretShare(v.SkShare), same participant
-		var part2 *c11X
-		if call := c11Res0(b.val(sk.Val, 0), "dkg.scalarToSecretShare"); call != nil && len(call.Args) == 1 {
-			part2 = c11FieldOf(call.Args[0], c11FrostPart+".SkShare")
-		}
-		c.Check("makeShares Share.SecretShare←participant.SkShare", posOf(sk), part2 != nil && (part == nil || c11Same(part, part2)),
-			"the secret share is not scalarToSecretShare(v.SkShare) of the participant that supplies the group key")
-		if part == nil {
-			part = part2
-		}
-		// PublicShares <- pubShares[index of that participant]
-		px := b.val(ps.Val, 0)
-		good, why := false, "PublicShares is not a lookup in the per-validator public-share map"
-		if px.Op == "lookup" && px.Args[0].Op == "make" && part != nil {
-			switch {
-			case part.Op == "lookup" && c11Same(part.Args[0], validatorsP):
-				good = c11Same(part.Args[1], px.Args[1])
-			case part.Op == "rval" && c11Same(part.Args[0], validatorsP):
-				good = px.Args[1].Op == "rkey" && px.Args[1].V == part.V
-			}
-			why = "PublicShares is taken at another validator index than the participant that supplies the keys"
-			if good {
-				outer = px.Args[0].V
-			}
-		}
-		c.Check("makeShares Share.PublicShares←pubShares[validator index of participant]", posOf(ps), good, why)
-	}
-	if outer == nil {
-		return
-	}
-	innerT := outer.Type().Underlying().(*types.Map).Elem()
-	if _, ok := innerT.Underlying().(*types.Map); !ok {
-		c.Bail("makeShares: per-validator public-share map has no inner map")
-	}
-	outerUps := mapUpdates(fn, func(m ssa.Value) bool { return m == outer })
-	// inserts of inner maps: fresh map, keyed by key.ValIdx of an r2Result entry
-	valIdxOf := func(k *c11X) *c11X { // returns the Next node if k = key.ValIdx of range over r2Result
-		r := c11FieldOf(k, "dkg.msgKey.ValIdx")
-		if r != nil && r.Op == "rkey" && c11Same(r.Args[0], r2P) {
-			return r
-		}
-		return nil
-	}
-	for _, up := range outerUps {
-		_, fresh := an.Unwrap(up.Value).(*ssa.MakeMap)
-		c.Check("makeShares pubShares[key.ValIdx]=new map", posOf(up), fresh && valIdxOf(b.val(up.Key, 0)) != nil,
-			"the per-validator map is not a fresh map stored under the ValIdx of a round-2 message key")
-	}
-	n := 0
-	for _, up := range mapUpdates(fn, func(m ssa.Value) bool { return types.Identical(m.Type(), innerT) }) {
-		n++
-		kx, vx := b.val(up.Key, 0), b.val(up.Value, 0)
-		src := c11FieldOf(kx, "dkg.msgKey.SourceID")
-		good, why := true, ""
-		if src == nil || src.Op != "rkey" || !c11Same(src.Args[0], r2P) {
-			good, why = false, "public share is not keyed by the SourceID of the round-2 message key"
-		}
-		if good {
-			var res *c11X
-			if call := c11Res0(vx, "dkg.pointToPubKey"); call != nil && len(call.Args) == 1 {
-				res = c11FieldOf(call.Args[0], c11FrostR2+".VkShare")
-			}
-			if res == nil || res.Op != "rval" || res.V != src.V {
-				good, why = false, "stored public share is not pointToPubKey(result.VkShare) of the same round-2 message"
-			}
-		}
-		if good {
-			// the inner map is pubShares[key.ValIdx] (existing or just inserted) of the same message
-			edges := []ssa.Value{up.Map}
-			if phi, ok := up.Map.(*ssa.Phi); ok {
-				edges = phi.Edges
-			}
-			for _, e := range edges {
-				ex := b.val(e, 0)
-				okEdge := false
-				switch ex.Op {
-				case "lookup":
-					r := valIdxOf(ex.Args[1])
-					okEdge = ex.Args[0].V == outer && r != nil && r.V == src.V
-				case "make":
-					for _, ou := range outerUps {
-						if an.Unwrap(ou.Value) == ex.V {
-							r := valIdxOf(b.val(ou.Key, 0))
-							okEdge = r != nil && r.V == src.V
-						}
-					}
-				}
-				if !okEdge {
-					good, why = false, "public share is not grouped under the ValIdx of its own message key"
-				}
-			}
-		}
-		c.Check("makeShares pubShares[key.ValIdx][key.SourceID]←result.VkShare", posOf(up), good, why)
-	}
-	if n == 0 {
-		c.Bail("makeShares: no insertion into a per-validator public-share map")
-	}
-}
-
-// ---------------------------------------------------------------------------------------------
-// K2
-
-// c11OwnKeyMap: every insertion into the local map m is keyed by core.PubKeyFromBytes(sh.PubKey[:]) and
-// stores proj(sh) of the same share sh ("" = the share itself, else the named field).
-func c11OwnKeyMap(b *c11B, fn *ssa.Function, m ssa.Value, proj string) (bool, string) {
-	ups := mapUpdates(fn, func(x ssa.Value) bool { return x == m })
-	if len(ups) == 0 {
-		return false, "map is never filled"
-	}
-	for _, up := range ups {
-		call := c11Res0(b.val(up.Key, 0), "core.PubKeyFromBytes")
-		if call == nil || len(call.Args) != 1 || call.Args[0].Op != "slice" {
-			return false, "map key is not core.PubKeyFromBytes(share.PubKey[:])"
-		}
-		sh := c11FieldOf(call.Args[0].Args[0], c11ShareT+".PubKey")
-		if sh == nil {
-			return false, "map key is not derived from a share's PubKey"
-		}
-		vx := b.val(up.Value, 0)
-		if proj != "" {
-			vx = c11FieldOf(vx, c11ShareT+"."+proj)
-		}
-		if !c11Same(vx, sh) {
-			return false, "value stored under a validator's public key does not belong to the share with that public key"
-		}
-	}
-	return true, ""
-}
-
-func c11K2(c *rt.Ctx) {
-	type spec struct {
-		fn, agg string
-		group   bool
-	}
-	for _, sp := range []spec{
-		{"dkg.aggLockHashSig", "tbls.Aggregate", false},
-		{"dkg.aggDepositData", "tbls.ThresholdAggregate", true},
-		{"dkg.aggValidatorRegistrations", "tbls.ThresholdAggregate", true},
-	} {
-		fn := c.Fn(sp.fn)
-		short := strings.TrimPrefix(sp.fn, "dkg.")
-		b := c11NewB()
-		if len(fn.Params) < 2 {
-			c.Bail("%s: unexpected signature", sp.fn)
-		}
-		dataP, sharesP := b.val(fn.Params[0], 0), b.val(fn.Params[1], 0)
-		agg := c.OneCall(fn, an.Static(sp.agg), sp.agg, false)
-		ins, ok := c11Inserts(fn, agg.Common().Args[0])
-		if !ok || len(ins) == 0 {
-			c.Unsure(short+" input of "+sp.agg, agg.Pos(), "aggregate input is not a local map/slice filled element by element")
-			continue
-		}
-		verifies := an.Calls(fn, an.Static("tbls.Verify"), false)
-		var partialRoot *c11X
-		partial := map[ssa.CallInstruction]bool{}
-		for _, in := range ins {
-			sx := b.val(in.Elem, 0)
-			var g ssa.CallInstruction
-			for _, v := range verifies {
-				if a := v.Common().Args; len(a) == 3 && c11Same(b.val(a[2], 0), sx) && an.Dominates(v, in.In) {
-					g = v
-				}
-			}
-			cons := short + " partial→" + sp.agg
-			if g == nil {
-				c.Bad(cons+" verified", posOf(in.In), "a partial signature enters the aggregate without a dominating tbls.Verify of that signature")
-				continue
-			}
-			partial[g] = true
-			okG, why := an.Guarded(g, in.In, an.DefaultGuard)
-			c.Check(cons+" verified", posOf(in.In), okG, "tbls.Verify of the partial signature is not a checked guard: "+why)
-			partialRoot = b.val(g.Common().Args[1], 0)
-
-			// binding: signature owner s, pubshare = PS[s.ShareIdx], PS = public shares of validator pk
-			var owner *c11X
-			if call := c11Res0(sx, "tbls/tblsconv.SignatureFromBytes"); call != nil && len(call.Args) == 1 {
-				if sc := call.Args[0]; sc.Op == "call" && sc.Name == "iface:core.SignedData.Signature" && len(sc.Args) == 1 {
-					owner = c11FieldOf(sc.Args[0], "core.ParSignedData.SignedData")
-				}
-			}
-			var next ssa.Value
-			if owner != nil && owner.Op == "elem" && owner.Args[0].Op == "rval" && c11Same(owner.Args[0].Args[0], dataP) {
-				next = owner.Args[0].V
-			}
-			if next == nil {
-				c.Unsure(cons+" binding", posOf(in.In), "cannot resolve the partial signature to an element of data[pk]")
-				continue
-			}
-			px := b.val(g.Common().Args[0], 0)
-			good, why2 := true, ""
-			if px.Op != "lookup" || !c11Same(c11FieldOf(px.Args[1], c11ParSigIdx), owner) {
-				good, why2 = false, "verification key is not <public shares>[s.ShareIdx] of the signature being verified"
-			}
-			if good {
-				ps := px.Args[0]
-				sameVal := func(k *c11X) bool { return k.Op == "rkey" && k.V == next }
-				if sh := c11FieldOf(ps, c11ShareT+".PublicShares"); sh != nil {
-					// shares[pk].PublicShares with shares the parameter map
-					if !(sh.Op == "lookup" && c11Same(sh.Args[0], sharesP) && sameVal(sh.Args[1])) {
-						good, why2 = false, "public shares are not those of the validator the signature was sent for"
-					}
-				} else if ps.Op == "lookup" && ps.Args[0].Op == "make" && sameVal(ps.Args[1]) {
-					if ok, w := c11OwnKeyMap(b, fn, ps.Args[0].V, "PublicShares"); !ok {
-						good, why2 = false, "public-share table: "+w
-					}
-				} else {
-					good, why2 = false, "verification key does not come from the PublicShares of the validator the signature was sent for"
-				}
-			}
-			c.Check(cons+" pubshare=PublicShares[s.ShareIdx] of same validator", posOf(in.In), good, why2)
-			if in.Key != nil {
-				c.Check(cons+" keyed by s.ShareIdx", posOf(in.In), c11Same(c11FieldOf(b.val(in.Key, 0), c11ParSigIdx), owner),
-					"partial signature is put into the threshold-aggregate input under another index than its own share index")
-			}
-		}
-		if !sp.group {
-			// the public keys returned for VerifyAggregate are exactly the verified public shares
-			for _, r := range an.Returns(fn) {
-				if len(r.Results) != 3 {
-					continue
-				}
-				if k, isC := r.Results[1].(*ssa.Const); isC && k.Value == nil {
-					continue
-				}
-				pins, ok := c11Inserts(fn, r.Results[1])
-				if !ok || len(pins) == 0 {
-					c.Unsure(short+" returned public keys", posOf(r), "returned key list is not a local slice grown by append")
-					continue
-				}
-				for _, pi := range pins {
-					good := false
-					for g := range partial {
-						if g.Common().Args[0] == pi.Elem {
-							if okG, _ := an.Guarded(g, pi.In, an.DefaultGuard); okG {
-								good = true
-							}
-						}
-					}
-					c.Check(short+" returned public key = verified pubshare", posOf(pi.In), good,
-						"a public key is returned for the multi-signature check that is not the one the partial signature was verified under")
-				}
-			}
-			continue
-		}
-		// threshold aggregate verified under the group key before any other use
-		var asig ssa.Value
-		for _, ref := range *agg.Value().Referrers() {
-			if ex, ok := ref.(*ssa.Extract); ok && ex.Index == 0 {
-				asig = ex
-			}
-		}
-		if asig == nil {
-			c.Unsure(short+" aggregate signature", agg.Pos(), "result of "+sp.agg+" is not used")
-			continue
-		}
-		ax := b.val(asig, 0)
-		var gv ssa.CallInstruction
-		for _, v := range verifies {
-			if a := v.Common().Args; len(a) == 3 && !partial[v] && c11Same(b.val(a[2], 0), ax) {
-				gv = v
-			}
-		}
-		cons := short + " aggregate"
-		if gv == nil {
-			c.Bad(cons+" verified under group key", agg.Pos(), "the threshold-aggregated signature is never verified with tbls.Verify")
-			continue
-		}
-		kx := c11Res0(b.val(gv.Common().Args[0], 0), "tbls/tblsconv.PubkeyFromCore")
-		var next ssa.Value
-		if l := an.InnermostLoop(fn, agg.Block()); l != nil {
-			for _, in := range l.Header.Instrs {
-				if nx, ok := in.(*ssa.Next); ok {
-					next = nx
-				}
-			}
-		}
-		keyOK := kx != nil && len(kx.Args) == 1 && kx.Args[0].Op == "rkey" && kx.Args[0].V == next && c11Same(kx.Args[0].Args[0], dataP)
-		c.Check(cons+" verified under group key", gv.Pos(), keyOK && c11Same(b.val(gv.Common().Args[1], 0), partialRoot),
-			"aggregate is not verified under tblsconv.PubkeyFromCore(pk) of the validator being aggregated over the same signing root as the partial signatures")
-		uses := 0
-		good, why := true, ""
-		var at token.Pos = gv.Pos()
-		for _, u := range c11ValueUses(asig) {
-			if u == ssa.Instruction(gv) {
-				continue
-			}
-			uses++
-			if okG, w := an.Guarded(gv, u, an.DefaultGuard); !okG {
-				good, why, at = false, w, posOf(u)
-			}
-		}
-		if uses == 0 {
-			c.Unsure(cons+" used only after verification", gv.Pos(), "aggregate signature has no use besides its verification")
-			continue
-		}
-		c.Check(cons+" used only after verification", at, good, "the aggregate signature is used on a path that did not pass its verification: "+why)
-		resT := fn.Signature.Results().At(0).Type()
-		n := 0
-		for _, in := range an.Instrs(fn, false) {
-			call, ok := in.(*ssa.Call)
-			if !ok {
-				continue
-			}
-			if bi, ok := call.Call.Value.(*ssa.Builtin); !ok || bi.Name() != "append" || !types.Identical(call.Type(), resT) {
-				continue
-			}
-			n++
-			okG, w := an.Guarded(gv, call, an.DefaultGuard)
-			c.Check(cons+" result appended after verification", posOf(call), okG, "a result is appended without the checked group-key verification: "+w)
-		}
-		if n == 0 {
-			c.Unsure(cons+" result appended after verification", fn.Pos(), "no append to the result slice found")
-		}
-	}
-
-	// signAndAggLockHash: VerifyAggregate(pubshares, aggSig, lockHash) before SignatureAggregate is set
-	fn := c.Fn("dkg.signAndAggLockHash")
-	b := c11NewB()
-	call := c.OneCall(fn, an.Static("dkg.aggLockHashSig"), "aggLockHashSig", false)
-	va := c.OneCall(fn, an.Static("tbls.VerifyAggregate"), "tbls.VerifyAggregate", false)
-	cx := b.val(call.Value(), 0)
-	sigX := &c11X{Op: "extract", Name: "0", Args: []*c11X{cx}}
-	pkX := &c11X{Op: "extract", Name: "1", Args: []*c11X{cx}}
-	a := va.Common().Args
-	bind := len(a) == 3 && c11Same(b.val(a[0], 0), pkX) && c11Same(b.val(a[1], 0), sigX) && c11Same(b.val(a[2], 0), b.val(call.Common().Args[2], 0))
-	c.Check("signAndAggLockHash VerifyAggregate(aggLockHashSig results, lock hash)", va.Pos(), bind,
-		"VerifyAggregate is not applied to the signature and public shares returned by aggLockHashSig over the hash that was aggregated")
-	n := 0
-	for _, in := range an.Instrs(fn, false) {
-		st, ok := in.(*ssa.Store)
-		if !ok {
-			continue
-		}
-		fa, ok := st.Addr.(*ssa.FieldAddr)
-		if !ok || an.FieldKey(fa.X.Type(), fa.Field) != "cluster.Lock.SignatureAggregate" {
-			continue
-		}
-		n++
-		okG, why := an.Guarded(va, st, an.DefaultGuard)
-		if okG && !c11Contains(b.val(st.Val, 0), sigX) {
-			okG, why = false, "stored value is not the verified aggregate"
-		}
-		c.Check("signAndAggLockHash SignatureAggregate set after VerifyAggregate", posOf(st), okG,
-			"lock.SignatureAggregate is set without the checked tbls.VerifyAggregate: "+why)
-	}
-	if n == 0 {
-		c.Unsure("signAndAggLockHash SignatureAggregate", fn.Pos(), "no assignment of lock.SignatureAggregate found")
-	}
-	// the share table handed to aggLockHashSig maps each validator key to its own share
-	mv := an.Unwrap(call.Common().Args[1])
-	if _, ok := mv.(*ssa.MakeMap); !ok {
-		c.Unsure("signAndAggLockHash share table", call.Pos(), "share table passed to aggLockHashSig is not a local map")
-	} else {
-		ok, why := c11OwnKeyMap(b, fn, mv, "")
-		c.Check("signAndAggLockHash share table keyed by own PubKey", call.Pos(), ok, why)
-	}
-}
-
-// ---------------------------------------------------------------------------------------------
-// K3
-
-func c11OffsetOne(c *rt.Ctx, construct string, pos token.Pos, peer, share ssa.Value) {
-	pb, po := c11Affine(peer)
-	sb, so := c11Affine(share)
-	if pb != sb {
-		c.Unsure(construct, pos, "peer index and share index are not offsets of one variable")
-		return
-	}
-	c.Check(construct, pos, so-po == 1, fmt.Sprintf("share index = peer index %+d (must be +1: share indices are 1-based everywhere else)", so-po))
-}
-
-func c11K3(c *rt.Ctx) {
-	// 1. cluster.Definition.NodeIdx
-	{
-		fn := c.Fn("cluster.Definition.NodeIdx")
-		byBase := map[ssa.Value]map[string]*ssa.Store{}
-		var order []ssa.Value
-		for _, in := range an.Instrs(fn, false) {
-			st, ok := in.(*ssa.Store)
-			if !ok {
-				continue
-			}
-			fa, ok := st.Addr.(*ssa.FieldAddr)
-			if !ok || an.TypeName(fa.X.Type()) != "cluster.NodeIdx" {
-				continue
-			}
-			if byBase[fa.X] == nil {
-				byBase[fa.X] = map[string]*ssa.Store{}
-				order = append(order, fa.X)
-			}
-			byBase[fa.X][an.FieldKey(fa.X.Type(), fa.Field)] = st
-		}
-		n := 0
-		for _, base := range order {
-			p, s := byBase[base]["cluster.NodeIdx.PeerIdx"], byBase[base]["cluster.NodeIdx.ShareIdx"]
-			if p == nil && s == nil {
-				continue
-			}
-			n++
-			if p == nil || s == nil {
-				c.Unsure("cluster.Definition.NodeIdx ShareIdx=PeerIdx+1", base.Pos(), "only one of PeerIdx/ShareIdx is set")
-				continue
-			}
-			c11OffsetOne(c, "cluster.Definition.NodeIdx ShareIdx=PeerIdx+1", posOf(s), p.Val, s.Val)
-		}
-		if n == 0 {
-			c.Unsure("cluster.Definition.NodeIdx ShareIdx=PeerIdx+1", fn.Pos(), "no NodeIdx value with PeerIdx and ShareIdx built here")
-		}
-	}
-	pubSharesElemIdx := func(x *c11X) ssa.Value { // x = PubkeyFromBytes(<DistValidator>.PubShares[i]) -> i
-		call := c11Res0(x, "tbls/tblsconv.PubkeyFromBytes")
-		if call == nil || len(call.Args) != 1 || call.Args[0].Op != "elem" {
-			return nil
-		}
-		if e := call.Args[0]; e.Args[0].Op == "field" && e.Args[0].Name == "cluster.DistValidator.PubShares" {
-			return e.Args[1].V
-		}
-		return nil
-	}
-	isMapOf := func(t types.Type, k, v string) bool {
-		m, ok := t.Underlying().(*types.Map)
-		return ok && an.TypeName(m.Key()) == k && an.TypeName(m.Elem()) == v
-	}
-	// 2. app.wireCoreWorkflow: allPubShares[i+1] = PubShares[i]
-	{
-		fn := c.Fn("app.wireCoreWorkflow")
-		b := c11NewB()
-		n := 0
-		for _, up := range mapUpdates(fn, func(m ssa.Value) bool { return isMapOf(m.Type(), "int", "tbls.PublicKey") }) {
-			if up.Parent() != fn {
-				continue
-			}
-			n++
-			idx := pubSharesElemIdx(b.val(up.Value, 0))
-			if idx == nil {
-				c.Unsure("app.wireCoreWorkflow pubshare map key=peer index+1", posOf(up), "stored public share is not tblsconv.PubkeyFromBytes(val.PubShares[i])")
-				continue
-			}
-			c11OffsetOne(c, "app.wireCoreWorkflow pubshare map key=peer index+1", posOf(up), idx, up.Key)
-		}
-		if n == 0 {
-			c.Unsure("app.wireCoreWorkflow pubshare map key=peer index+1", fn.Pos(), "no insertion into a map[int]tbls.PublicKey")
-		}
-	}
-	// 3. cmd/combine.shareIdxByPubkeys: pubkMap[PubShares[peerIdx]] = peerIdx+1
-	{
-		fn := c.Fn("cmd/combine.shareIdxByPubkeys")
-		b := c11NewB()
-		n := 0
-		for _, up := range mapUpdates(fn, func(m ssa.Value) bool { return isMapOf(m.Type(), "tbls.PublicKey", "int") }) {
-			n++
-			idx := pubSharesElemIdx(b.val(up.Key, 0))
-			if idx == nil {
-				c.Unsure("cmd/combine.shareIdxByPubkeys share index=peer index+1", posOf(up), "map key is not tblsconv.PubkeyFromBytes(PubShares[peerIdx])")
-				continue
-			}
-			c11OffsetOne(c, "cmd/combine.shareIdxByPubkeys share index=peer index+1", posOf(up), idx, up.Value)
-		}
-		if n == 0 {
-			c.Unsure("cmd/combine.shareIdxByPubkeys share index=peer index+1", fn.Pos(), "no insertion into a map[tbls.PublicKey]int")
-		}
-	}
-	// 4. cmd.getTSSShares: secretSet[i-1] = shares[i], shares from tbls.ThresholdSplit
-	{
-		fn := c.Fn("cmd.getTSSShares")
-		b := c11NewB()
-		n := 0
-		for _, in := range an.Instrs(fn, false) {
-			st, ok := in.(*ssa.Store)
-			if !ok {
-				continue
-			}
-			ia, ok := st.Addr.(*ssa.IndexAddr)
-			if !ok {
-				continue
-			}
-			vx := b.val(st.Val, 0)
-			if vx.Op != "lookup" || c11Res0(vx.Args[0], "tbls.ThresholdSplit") == nil {
-				continue
-			}
-			n++
-			c11OffsetOne(c, "cmd.getTSSShares slot=share index-1", posOf(st), ia.Index, vx.Args[1].V)
-		}
-		if n == 0 {
-			c.Unsure("cmd.getTSSShares slot=share index-1", fn.Pos(), "no store of a tbls.ThresholdSplit share into an indexed slot")
-		}
-	}
-}
-
-// ---------------------------------------------------------------------------------------------
-// K4
-
-func c11K4(c *rt.Ctx) {
-	type spec struct {
-		fn        string
-		ownTarget bool // target id must be this node's share index (else 0 = broadcast)
-	}
-	for _, sp := range []spec{{"dkg.newBcastCallback$1", false}, {"dkg.newP2PCallback$1", true}} {
-		fn := c.Fn(sp.fn)
-		b := c11NewB()
-		var pid *c11X
-		for _, p := range fn.Params {
-			if an.TypeName(p.Type()) == "github.com/libp2p/go-libp2p/core/peer.ID" {
-				if pid != nil {
-					c.Bail("%s: two peer.ID parameters", sp.fn)
-				}
-				pid = b.val(p, 0)
-			}
-		}
-		if pid == nil {
-			c.Bail("%s: no peer.ID parameter", sp.fn)
-		}
-		var numVals *c11X
-		for _, p := range fn.Parent().Params {
-			if p.Name() == "numVals" {
-				numVals = b.val(p, 0)
-			}
-		}
-		if numVals == nil {
-			c.Bail("%s: enclosing function has no numVals parameter", sp.fn)
-		}
-		isPeers := func(x *c11X) bool {
-			if x.Op != "param" {
-				return false
-			}
-			m, ok := x.V.Type().Underlying().(*types.Map)
-			return ok && an.TypeName(m.Elem()) == "cluster.NodeIdx" && an.TypeName(m.Key()) == "github.com/libp2p/go-libp2p/core/peer.ID"
-		}
-		// share index of peers[k]
-		shareIdxOfPeer := func(x *c11X) *c11X {
-			n := c11FieldOf(x, "cluster.NodeIdx.ShareIdx")
-			if n != nil && n.Op == "lookup" && isPeers(n.Args[0]) {
-				return n.Args[1]
-			}
-			return nil
-		}
-		var sends []*ssa.Send
-		for _, in := range an.Instrs(fn, false) {
-			if s, ok := in.(*ssa.Send); ok {
-				sends = append(sends, s)
-			}
-		}
-		if len(sends) == 0 {
-			c.Bail("%s: no channel send", sp.fn)
-		}
-		for _, send := range sends {
-			cons := strings.TrimPrefix(sp.fn, "dkg.") + " send " + an.TypeName(send.X.Type())[strings.LastIndex(an.TypeName(send.X.Type()), ".")+1:]
-			msgX := b.val(send.X, 0)
-			// the loop over the message's elements
-			var loop *an.Loop
-			var collX *c11X
-			for _, l := range an.Loops(fn) {
-				coll := l.RangeColl()
-				if coll == nil {
-					continue
-				}
-				cx := b.val(coll, 0)
-				if cx.Op == "call" && len(cx.Args) == 1 && c11Same(cx.Args[0], msgX) {
-					if loop != nil {
-						loop = nil
-						break
-					}
-					loop, collX = l, cx
-				}
-			}
-			if loop == nil {
-				c.Unsure(cons+": element checks", posOf(send), "cannot find the single loop over the elements of the forwarded message")
-				continue
-			}
-			keyGet := func(x *c11X, getter string) bool {
-				if x.Op != "call" || !strings.HasSuffix(x.Name, "dkg/dkgpb/v1.FrostMsgKey."+getter) || len(x.Args) != 1 {
-					return false
-				}
-				k := x.Args[0]
-				if k.Op != "call" || !strings.HasSuffix(k.Name, ".GetKey") || len(k.Args) != 1 {
-					return false
-				}
-				e := k.Args[0]
-				return e.Op == "elem" && c11Same(e.Args[0], collX)
-			}
-			// forall: some branch in the loop on a comparison accepted by pred (returning the failing
-			// successor index) is a forall-guard of the send
-			forall := func(pred func(op token.Token, x, y *c11X) (int, bool)) (bool, string) {
-				why := "no such comparison on every element of the message"
-				for _, blk := range fn.Blocks {
-					if !loop.Body[blk] || len(blk.Instrs) == 0 {
-						continue
-					}
-					iff, ok := blk.Instrs[len(blk.Instrs)-1].(*ssa.If)
-					if !ok {
-						continue
-					}
-					bin, ok := iff.Cond.(*ssa.BinOp)
-					if !ok {
-						continue
-					}
-					x, y := b.val(bin.X, 0), b.val(bin.Y, 0)
-					fail, ok := pred(bin.Op, x, y)
-					if !ok {
-						fail, ok = pred(c11Flip(bin.Op), y, x)
-					}
-					if !ok {
-						continue
-					}
-					if g, w := an.ForallGuard(loop, iff, blk.Succs[fail], send); g {
-						return true, ""
-					} else {
-						why = w
-					}
-				}
-				return false, why
-			}
-			eqFail := func(op token.Token) (int, bool) {
-				switch op {
-				case token.NEQ:
-					return 0, true
-				case token.EQL:
-					return 1, true
-				}
-				return 0, false
-			}
-			ok, why := forall(func(op token.Token, x, y *c11X) (int, bool) {
-				if !keyGet(x, "GetSourceId") {
-					return 0, false
-				}
-				if k := shareIdxOfPeer(y); k == nil || !c11Same(k, pid) {
-					return 0, false
-				}
-				return eqFail(op)
-			})
-			c.Check(cons+": source id = sender's share index", posOf(send), ok, "message is forwarded although an element's source id was not compared with peers[sender].ShareIdx: "+why)
-			ok, why = forall(func(op token.Token, x, y *c11X) (int, bool) {
-				if !keyGet(x, "GetTargetId") {
-					return 0, false
-				}
-				if sp.ownTarget {
-					k := shareIdxOfPeer(y)
-					if k == nil || k.Op != "call" || k.Name != "iface:github.com/libp2p/go-libp2p/core/host.Host.ID" {
-						return 0, false
-					}
-				} else if y.Op != "const" || y.Name != "0" {
-					return 0, false
-				}
-				return eqFail(op)
-			})
-			want := "0 (broadcast)"
-			if sp.ownTarget {
-				want = "this node's share index"
-			}
-			c.Check(cons+": target id", posOf(send), ok, "message is forwarded although an element's target id was not compared with "+want+": "+why)
-			ok, why = forall(func(op token.Token, x, y *c11X) (int, bool) {
-				if !keyGet(x, "GetValIdx") || !c11Same(y, numVals) {
-					return 0, false
-				}
-				switch op {
-				case token.GEQ:
-					return 0, true
-				case token.LSS:
-					return 1, true
-				}
-				return 0, false
-			})
-			c.Check(cons+": validator index < numVals", posOf(send), ok, "message is forwarded although an element's validator index may be >= numVals: "+why)
-
-			// per-peer dedup: seen test cuts the send off, and the mark dominates the send
-			good, whyD := false, "no per-peer dedup map is consulted before the send"
-			for _, in := range an.Instrs(fn, false) {
-				lk, isLk := in.(*ssa.Lookup)
-				if !isLk {
-					continue
-				}
-				m, isMap := lk.X.Type().Underlying().(*types.Map)
-				if !isMap || !types.Identical(m.Elem(), types.Typ[types.Bool]) || !c11Same(b.val(lk.Index, 0), pid) || !an.Dominates(lk, send) {
-					continue
-				}
-				mx := b.val(lk.X, 0)
-				if mx.Op != "make" {
-					continue
-				}
-				var status []ssa.Value
-				if lk.CommaOk {
-					for _, ref := range *lk.Referrers() {
-						if ex, ok := ref.(*ssa.Extract); ok {
-							status = append(status, ex)
-						}
-					}
-				} else {
-					status = append(status, lk)
-				}
-				cut := false
-				for _, sv := range status {
-					for _, cd := range an.CondsOn(fn, sv) {
-						if cd.Other == nil && an.Dominates(cd.If, send) && an.EdgeCuts(cd.Succ(true), send, nil) && !an.EdgeCuts(cd.Succ(false), send, nil) {
-							cut = true
-						}
-					}
-				}
-				if !cut {
-					whyD = "the branch on the dedup lookup does not keep an already-seen peer from reaching the send"
-					continue
-				}
-				marked := false
-				for _, up := range mapUpdates(fn, func(x ssa.Value) bool { return c11Same(b.val(x, 0), mx) }) {
-					if k, isC := an.Unwrap(up.Value).(*ssa.Const); isC && k.Value != nil && k.Value.ExactString() == "true" &&
-						c11Same(b.val(up.Key, 0), pid) && an.Dominates(up, send) && up.Parent() == fn {
-						marked = true
-					}
-				}
-				if !marked {
-					whyD = "the peer is not marked as seen in the consulted dedup map before the send"
-					continue
-				}
-				good = true
-			}
-			c.Check(cons+": per-peer dedup", posOf(send), good, whyD)
-		}
-	}
-}
-
-func c11Flip(op token.Token) token.Token {
-	switch op {
-	case token.LSS:
-		return token.GTR
-	case token.LEQ:
-		return token.GEQ
-	case token.GTR:
-		return token.LSS
-	case token.GEQ:
-		return token.LEQ
-	}
-	return op
+	c.Rule("K4", 13, func() { c11K4(c) })
 }
